@@ -179,6 +179,28 @@ fn dir_listing(dir: &str) -> String {
     items.join(";")
 }
 
+
+/// the records of a reader are the same - numbering included - whichever part of the Iterator interface draws them
+fn reader_probe(path: &str, format: ktio::seq::SeqFormat, items: &[String], show: &dyn Fn(&ktio::seq::Sequence) -> String) -> Option<String> {
+    if items.len() > 2000 { return None; }
+    let open = || ktio::seq::Sequences::new(format, ktio::seq::get_reader(path).unwrap()).unwrap();
+    let n = items.len();
+    for j in [0usize, 1, 2, n / 2, n.saturating_sub(1)] {
+        if j >= n { continue; }
+        let mut it = open();
+        if it.nth(j).as_ref().map(|r| show(r)).as_ref() != Some(&items[j]) { return Some(format!("nth({}) differs", j)); }
+        if it.next().as_ref().map(|r| show(r)).as_ref() != items.get(j + 1) { return Some(format!("next() after nth({}) differs", j)); }
+        let mut it = open(); let mut got = vec![];
+        for _ in 0..j { if let Some(x) = it.next() { got.push(show(&x)); } }
+        it.by_ref().for_each(|x| got.push(show(&x)));
+        if got != items { return Some(format!("next x {} then for_each differs", j)); }
+        if open().skip(j).next().as_ref().map(|r| show(r)).as_ref() != Some(&items[j]) { return Some(format!("skip({}) differs", j)); }
+    }
+    // count() is deliberately unimplemented for this reader (the project says so in the code): not probed
+    if open().last().as_ref().map(|r| show(r)) != items.last().cloned() { return Some("last() differs".into()); }
+    None
+}
+
 fn plant_stale(od: &str) {
     for part in 0..20 { for chunk in 0..4 {
         std::fs::write(format!("{}/temp_kmers.part_{}_chunk_{}", od, part, chunk), format!("{}\t7\n{}\t3\n", part, part + 100)).unwrap();
@@ -492,7 +514,9 @@ pub fn exec(p: &[&str], scratch: &str) -> String {
             let path = serialise(&recs, p[1], 60, &d, "in");
             let format = match ktio::seq::SeqFormat::get(&path) { Some(f) => f, None => return "none".into() };
             let it = ktio::seq::Sequences::new(format, ktio::seq::get_reader(&path).unwrap()).unwrap();
-            let items: Vec<String> = it.map(|r| format!("{}:{}:{}", r.n, r.id, hex(&r.seq))).collect();
+            let show = |r: &ktio::seq::Sequence| format!("{}:{}:{}", r.n, r.id, hex(&r.seq));
+            let items: Vec<String> = it.map(|r| show(&r)).collect();
+            if let Some(e) = reader_probe(&path, format, &items, &show) { return format!("PROTOCOL {}", e); }
             let st = ktio::seq::Sequences::seq_stats(format, ktio::seq::get_reader(&path).unwrap());
             format!("{}|{},{}", items.join(";"), st.seq_count, st.total_length)
         }
@@ -514,7 +538,9 @@ pub fn exec(p: &[&str], scratch: &str) -> String {
             let format = match ktio::seq::SeqFormat::get(&path) { Some(f) => f, None => return "none".into() };
             let name = match format { ktio::seq::SeqFormat::Fasta => "fa", ktio::seq::SeqFormat::Fastq => "fq" };
             let recs = ktio::seq::Sequences::new(format, ktio::seq::get_reader(&path).unwrap()).unwrap();
-            let items: Vec<String> = recs.map(|r| format!("{}:{}:{}", r.n, hex(r.id.as_bytes()), hex(&r.seq))).collect();
+            let show = |r: &ktio::seq::Sequence| format!("{}:{}:{}", r.n, hex(r.id.as_bytes()), hex(&r.seq));
+            let items: Vec<String> = recs.map(|r| show(&r)).collect();
+            if let Some(e) = reader_probe(&path, format, &items, &show) { return format!("PROTOCOL {}", e); }
             let st = ktio::seq::Sequences::seq_stats(format, ktio::seq::get_reader(&path).unwrap());
             format!("{}|{}|{},{}", name, items.join(";"), st.seq_count, st.total_length)
         }
